@@ -93,7 +93,11 @@ def body(ctx, conv, nk, positive, order, dpos, two_depths, via, holes):
     coords = {'zc': (('k',), z, {'positive': positive, 'long_name': 'depth'}),
               'time': (('t',), numpy.array([0.0, 1.0]), {'long_name': 'time'})}
     depth_names = ['zc']
-    if two_depths:
+    if two_depths == 'same_dim':
+        # a second coordinate for the same layers with the opposite sign convention (e.g. depth and height)
+        coords['height'] = (('k',), -1 * z, {'positive': 'up' if down else 'down'})
+        depth_names = ['zc', 'height'] if nk % 2 else ['height', 'zc']
+    elif two_depths:
         z2 = numpy.array([0.5, 3.0]) * (1 if down else -1)
         flags2 = numpy.empty((2,) + sshape, dtype=object)
         for k, idx in enumerate(numpy.ndindex(*flags2.shape)):
@@ -113,7 +117,9 @@ def body(ctx, conv, nk, positive, order, dpos, two_depths, via, holes):
         out = depth_ops.ocean_floor(ds, depth_names, non_spatial_variables=['time'])
 
     ctx.check('k' not in out.dims and 'zc' not in out.variables, 'depth dimension and its coordinate are removed')
-    if two_depths:
+    if two_depths == 'same_dim':
+        ctx.check('height' not in out.variables, 'second coordinate of the depth dimension removed')
+    elif two_depths:
         ctx.check('k2' not in out.dims and 'zsed' not in out.variables, 'second depth dimension and coordinate removed')
 
     def expect_floor(values, dims, depth_dim, fl, physd, n):
@@ -140,7 +146,7 @@ def body(ctx, conv, nk, positive, order, dpos, two_depths, via, holes):
     name_of = {id(temp): 'temp', id(salt): 'salt'}
     ctx.check(expect_floor(temp, dims_temp, 'k', flags, phys, nk), 'temp: deepest layer that holds data, at every location and time')
     ctx.check(expect_floor(salt, dims_salt, 'k', flags, phys, nk), 'salt: deepest layer that holds data')
-    if two_depths:
+    if two_depths and two_depths != 'same_dim':
         name_of[id(sed)] = 'sed'
         phys2 = [float(v) if down else -float(v) for v in z2]
         ctx.check(expect_floor(sed, dims_sed, 'k2', flags2, phys2, 2), 'sed: reduced along its own depth coordinate')
@@ -170,8 +176,10 @@ def cases(tier):
                 if not q and k % 4 == 0:
                     nk = 4
                 two = (k % 3 == 0)
+                if k % 7 == 3:
+                    two = 'same_dim'
                 holes = (k % 5 == 0) and nk <= 3
-                yield Case(f'{conv}:{positive}:{order}:dpos{dpos}:nk{nk}:two{int(two)}:holes{int(holes)}', body,
+                yield Case(f'{conv}:{positive}:{order}:dpos{dpos}:nk{nk}:two{two if isinstance(two, str) else int(two)}:holes{int(holes)}', body,
                            dict(conv=conv, nk=nk, positive=positive, order=order, dpos=dpos, two_depths=two, via='function', holes=holes),
                            patches=depthcommon.patches, max_paths=20000, split=16)
     yield Case('plain:DOWN:shallow_first:dpos0:nk3:two0:holes0', body,
